@@ -173,12 +173,12 @@ M('c04-skipexc-glomerror', 'C04', 'core.py',
   "    skip_exc = kwargs.pop('skip_exc', GlomError)",
   "errors are filtered even without a default")
 M('c04-typematch-nocopy', 'C04', 'matching.py',
-  "    def __copy__(self):\n        # __init__ args = (actual, expected)\n        # self.args = (fmt_str, expected, actual)\n        return TypeMatchError(self.args[2], self.args[1])\n",
+  "    def __copy__(self):\n        # __init__ args = (actual, expected)\n        # self.args = (fmt_str, expected, actual)\n        return type(self)(self.args[2], self.args[1])\n",
   "",
   "TypeMatchError loses its __copy__ (copy.copy re-runs __init__ with the wrong args)")
 M('c04-copy-swapped', 'C04', 'matching.py',
-  "        return TypeMatchError(self.args[2], self.args[1])",
-  "        return TypeMatchError(self.args[1], self.args[2])",
+  "        return type(self)(self.args[2], self.args[1])",
+  "        return type(self)(self.args[1], self.args[2])",
   "TypeMatchError.__copy__ swaps actual and expected")
 M('c04-wrap-bases', 'C04', 'core.py',
   "        bases = (GlomError,) if issubclass(GlomError, exc_type) else (GlomError, exc_type)",
@@ -852,3 +852,29 @@ M('c02-revert-call-operand-twice', ['C02'], 'core.py',
   "        if op != '(':  # call arguments are evaluated (once) by the Call spec below\n            arg = arg_val(target, arg, scope)",
   "        arg = arg_val(target, arg, scope)",
   "revert of the repair: the operand of a call step is evaluated before Call evaluates it again")
+M('c19-revert-undecodable-target', ['C19'], 'cli.py',
+  "            target_text = open(target_file).read()\n        except (OSError, UnicodeDecodeError) as ose:",
+  "            target_text = open(target_file).read()\n        except OSError as ose:",
+  "revert of the repair: an undecodable target file escapes as a traceback")
+M('c13-revert-register-op-reset', ['C13'], 'core.py',
+  "        self._op_auto_map[op_name] = auto_func\n        # a lookup made before the op was declared may have memoised a miss\n        self._type_cache = {}\n",
+  "        self._op_auto_map[op_name] = auto_func\n",
+  "revert of the repair: register_op leaves memoised misses in place")
+
+# reverts of the repairs made after seed round 7 (5.1 w-z)
+M('c10-revert-flatten-default', ['C10'], 'matching.py',
+  "    def __and__(self, other):\n        if self.default is not _MISSING:\n            return And(self, other)  # flattening would drop the default\n",
+  "    def __and__(self, other):\n",
+  "revert of the repair: And(.., default=D) & x drops the default")
+M('c09-revert-callable-name', ['C09', 'C04'], 'matching.py',
+  "        spec_name = getattr(spec, '__name__', None) or bbrepr(spec)\n",
+  "        spec_name = spec.__name__\n",
+  "revert of the repair: a rejecting callable without __name__ raises AttributeError")
+M('c04-revert-copy-class', ['C04'], 'matching.py',
+  "        return type(self)(self.args[2], self.args[1])",
+  "        return TypeMatchError(self.args[2], self.args[1])",
+  "revert of the repair: a TypeMatchError subclass is copied as its base class")
+M('c04-revert-wrap-type-in-try', ['C04'], 'core.py',
+  "        try:\n            exc_wrapper_type = type(f\"GlomError.wrap({exc_type.__name__})\", bases, {})\n            wrapper = exc_wrapper_type(*exc.args)",
+  "        exc_wrapper_type = type(f\"GlomError.wrap({exc_type.__name__})\", bases, {})\n        try:\n            wrapper = exc_wrapper_type(*exc.args)",
+  "revert of the repair: building the wrapper class is outside the fallback")
